@@ -580,6 +580,16 @@ func c05Gen(r *vfRand, idx int, adv bool) c05In {
 				f.Block = append(f.Block, bad)
 			}
 		}
+		if (fi > 0 || idx%9 == 4) && r.Chance(1, 10) {
+			// a filter without any usable entry: nothing at all, or only strings New ignores
+			f.Allow, f.Block = nil, nil
+			if r.Bool() {
+				f.Allow = []string{r.PickStr(c05BadEntries...)}
+			}
+			if r.Chance(1, 3) {
+				f.Block = []string{r.PickStr(c05BadEntries...)}
+			}
+		}
 		f.Allow, f.Block = c05Uniq(f.Allow), c05Uniq(f.Block)
 		for _, e := range ents {
 			if r.Chance(3, 4) {
